@@ -314,7 +314,7 @@ def subcircuit_cases(draw, tier):
             'form': draw(st.sampled_from(['dnf', 'rm', 'chain'])),
             'label_mode': draw(st.sampled_from(['fresh', 'fresh', 'same_boundary'])),
             'fault': draw(st.sampled_from(['none', 'none', 'none', 'unlisted_fanout', 'non_input_mapped',
-                                           'missing_input', 'label_collision', 'overlap_keys'])),
+                                           'missing_input', 'label_collision', 'overlap_keys', 'unread_unmapped_input'])),
             'uuid_seed': draw(st.integers(0, 2 ** 20))}
 
 
@@ -421,6 +421,13 @@ def check_subcircuit(case):
             rep = {'inputs': rep['inputs'], 'gates': [[rn(l), t, [rn(o) for o in op]] for l, t, op in rep['gates']],
                    'outputs': rep['outputs']}
             applied = fault
+    elif fault == 'unread_unmapped_input':
+        # the replacement declares one more input that nothing in it reads and that has no counterpart in the host
+        # (a block synthesised for a fixed arity): to be refused - or at least the host must keep its interface
+        extra = 'rs_spare_input'
+        rep = {'inputs': list(rep['inputs']) + [extra], 'gates': [[extra, 'INPUT', []]] + [list(g) for g in rep['gates']],
+               'outputs': rep['outputs']}
+        applied = fault
     elif fault == 'overlap_keys' and I and need_out:
         inputs_mapping[need_out[0]] = rep['inputs'][0]
         applied = fault
